@@ -3,6 +3,7 @@ import random
 
 from .adapters.dispatcher import DispatcherAdapter
 from .tla import FD
+from .replay import SKIP
 
 HS = ['h%d' % i for i in range(1, 7)]
 EVS = ['a', 'b', 'c']
@@ -35,7 +36,13 @@ def random_header(rnd):
     return {'subs': subs, 'beh': beh, 'ids': True}
 
 
+def _q(obs):
+    q = obs.get('wb_queue', ())
+    return [-1] if q is SKIP else list(q)
+
+
 def record(desper, seed, n_traces, n_calls):
+    import gc
     rnd = random.Random(seed)
     ad = DispatcherAdapter(desper)
     traces = []
@@ -59,13 +66,15 @@ def record(desper, seed, n_traces, n_calls):
             held = set(obs['alive'])
             ev = {'op': op, 'arg': arg if arg is not None else '-', 'ret': obs['ret'] if obs['ret'] in ('ok', 'raised') else obs['ret'],
                   'log': [list(x) for x in obs['log']], 'enabled': obs['enabled'], 'reg': sorted(obs['reg']),
-                  'alive': sorted(obs['alive']), 'queue': list(obs.get('wb_queue', ()))}
+                  'alive': sorted(obs['alive']), 'queue': _q(obs)}
             events.append(ev)
             if len(ev['queue']) > 12:          # keep queues short: enable soon
                 obs = ad.step('SetEnabled', (True,), None)
                 events.append({'op': 'SetEnabled', 'arg': True, 'ret': obs['ret'], 'log': [list(x) for x in obs['log']],
                                'enabled': obs['enabled'], 'reg': sorted(obs['reg']), 'alive': sorted(obs['alive']),
-                               'queue': list(obs.get('wb_queue', ()))})
+                               'queue': _q(obs)})
                 held = set(obs['alive'])
         traces.append({'header': hdr, 'events': events})
+        if _t % 20 == 19:
+            gc.freeze()         # recorded traces never become garbage: keep the adapter's gc.collect() calls cheap
     return traces
